@@ -21,7 +21,9 @@ SETOPS = ["and", "or", "unless"]
 IDENTS = ["a", "b", "app", "level", "status", "msg", "foo_bar", "_x", "x1", "duration_ms", "lvl", "container", "host", "path", "n"]
 # identifiers that are also keywords/functions: usable as labels when not followed by ( b w
 SEL_KEYWORDS = ["by", "on", "json", "drop", "keep", "bool", "offset", "without", "unwrap", "logfmt", "or", "and", "unless", "ignoring", "pattern", "regexp", "unpack",
-                "distinct", "line_format", "label_format", "decolorize", "group_left", "group_right", "ip", "sum", "count_over_time", "topk", "bytes", "duration"]
+                "distinct", "line_format", "label_format", "decolorize", "group_left", "group_right", "ip", "sum", "count_over_time", "topk", "bytes", "duration",
+                # keywords in another letter case are ordinary identifiers
+                "IP", "Offset", "JSON", "By", "Label_Format", "COUNT_OVER_TIME"]
 KW_IDENTS = ["ip", "duration", "bytes", "rate", "sum", "count", "vector", "sort"]
 
 
